@@ -3,5 +3,6 @@ CONSTANTS
   Names = {"n1", "n2"}
 SPECIFICATION Spec
 INVARIANT Mirror
+INVARIANT KeysConsistent
 PROPERTY RestoreKeeps
 CHECK_DEADLOCK FALSE
